@@ -18,10 +18,10 @@ Actions(inst) == 0..inst.N
 
 (* What SVRPGenerator delivers: technicians sorted by skill, every customer can
    be served by the most skilled technician (skills = max tech * U(0,1)).
-   At least two technicians: with one, SVRPEnv._step itself raises when the
-   technician returns to the depot (see TechOverflow below).                 *)
+   One technician is allowed (since the fix "SVRP works with a single technician": before it
+   SVRPEnv._step raised when the only technician returned to the depot).            *)
 InstanceOK(inst) ==
-  /\ inst.T >= 2
+  /\ inst.T >= 1
   /\ \A t \in Tech(inst) : inst.skill[t] >= 1 /\ inst.cost[t] >= 1
   /\ \A t \in 1..(inst.T - 1) : inst.skill[t] <= inst.skill[t + 1]
   /\ \A j \in Cust(inst) : inst.req[j] >= 0 /\ inst.req[j] <= inst.skill[inst.T]
@@ -76,9 +76,9 @@ FinalOK(inst, sol, fin) == TRUE
 \* SVRPEnv state: visited (incl. the depot bit), current_node, current_tech (0-based)
 Init0(inst) == [visited |-> {}, cur |-> 0, tech |-> 0]
 
-\* quirk: techs is gathered at index current_tech without a bound.  Once current_tech = T
-\* (T depot visits: only possible on a post-finish step beyond what any batch-mate can induce,
-\* or with T = 1) gather raises "index out of bounds".  The model has no value there either.
+\* current_tech never runs past the last technician (clamped in _step since the fix "SVRP works with a
+\* single technician"; before it the T-th depot visit -- the final return of a single technician, or a
+\* post-finish step beyond what any batch-mate can induce -- raised "index out of bounds")
 TechOverflow(inst, s) == s.tech >= inst.T
 CurSkill(inst, s)     == inst.skill[s.tech + 1]
 
@@ -98,18 +98,18 @@ Mask(inst, s) == {j \in Cust(inst) : ~MaskLoc(inst, s, j)}
 Step(inst, s, a) ==
   [visited |-> s.visited \cup {a},
    cur     |-> a,
-   tech    |-> IF a = 0 THEN s.tech + 1 ELSE s.tech]
+   tech    |-> IF a = 0 THEN Min(s.tech + 1, inst.T - 1) ELSE s.tech]
 
 Done(inst, s) == s.visited = 0..inst.N            \* the depot bit is part of `done`
 
 \* SVRPEnv._get_reward: locs_ordered = depot + actions; leg p runs from position p to p + 1
 \* (the roll closes the tour); the leg's factor is tech_costs[number of zeros among the
-\* actions before position p]  (index T raises IndexError: see TechOverflow)
+\* actions before position p], the last technician staying the last one
 RewardM(inst, s, hist) ==
   LET locs == <<0>> \o hist
       L    == Len(locs)
       nxt(p) == IF p = L THEN locs[1] ELSE locs[p + 1]
-      tch(p) == Count(SubSeq(hist, 1, p - 1), 0)
+      tch(p) == Min(Count(SubSeq(hist, 1, p - 1), 0), inst.T - 1)
   IN 0 - SumSeq([p \in 1..L |-> inst.cost[tch(p) + 1] * Dist(inst.D, locs[p], nxt(p))])
 
 ConfState(inst, s, st) == st.cur = s.cur /\ st.tech = s.tech /\ ToSetU(st.visited) = s.visited
